@@ -9,12 +9,12 @@ esc = lambda s: s.replace("|", "\\|")
 rows_f = "\n".join("| %s | `%s` | %s |" % (f["property"], f["commit"], esc(f["what"])) for f in fixed)
 rows_o = "\n".join("| %s | `%s` | %s |" % (f["property"], esc(f["signature"]), esc(f["what"])) for f in opn)
 SPACE = {
- "C01": "A: scenarios S1-S5, S9-S11 (libraries/definitions across two netlists, ports/pins under two instances, connections with inner pins, stored outer pins and persistent (possibly stale) proxies, children, moves, re-point after reshape, bundle attributes); bulk calls also with a repeated element and with a generator; depth 2-3; both orders",
+ "C01": "A: scenarios S1-S5, S9-S11 (libraries/definitions across two netlists, ports/pins under two instances, connections with inner pins, stored outer pins and persistent (possibly stale) proxies, children, moves, re-point after reshape, bundle attributes, set_top_instance with and without a name, cable reorder); bulk calls also with a repeated element and with a generator; depth 2-3; both orders",
  "C02": "A: S2, S4, S5, S6 (instances from zero), S7 (child + top instance of one definition), S9, S11; state invariant + re-point step clause",
  "C03": "B: base designs E1-E7 x API variants (undefined direction, reversed declaration order, bus base 5 with pins reordered, edited in front after a first export), F_hier slice, bundled .edf, re-parsed independent-writer texts; compared by the real reader and an independent s-expression reader",
- "C04": "B: C06 base texts (6 orders x 2 styles), chains of depth 3-4 in every declaration order, expression product, bundled .v x {identity, uniquify, flatten, clone} x {write_blackbox, defparam}",
- "C05": "B: E1-E7 x 72 option sets (reference letter case, rename style, libraryRef, comments, design case); every permutation x non-empty subset of the bits of two bus nets; F_hier K1/K8; bundled .edf vs independent s-expression reading",
- "C06": "B: rich base design x 6 module orders x header/ANSI x {no, sparse, dense} comments; chains depth 3-4(-5) in all orders; every connection expression of the grammar up to width 3 x named/positional x declared before/after/`celldefine/never x header/ANSI",
+ "C04": "B: C06 base texts (6 orders x 2 styles x {plain, other spellings: net types, defparam, `timescale}; aliased header port), chains of depth 3-4 in every declaration order, expression product, bundled .v x {identity, uniquify, flatten, clone} x {write_blackbox, defparam}",
+ "C05": "B: E1-E7 x 144 option sets (reference letter case, rename style, libraryRef, comments, design case, rich = external library + status blocks + properties on cells/views/ports/nets + (number N) values + owner); every permutation x non-empty subset of the bits of two bus nets; F_hier K1/K8; bundled .edf vs independent s-expression reading",
+ "C06": "B: rich base design (incl. an aliased header port) x 6 module orders x header/ANSI x {no, sparse, dense} comments x {plain, other documented spellings: `timescale, skipped `ifdef and UDP, comma lists, net types on ports and wires, defparam}; chains depth 3-4(-5) in all orders; every connection expression of the grammar up to width 3 x named/positional x declared before/after/`celldefine/never x header/ANSI",
  "C07": "B: every element of every design cloned (variants plain, unnamed, top also a child, definition removed, two libraries, outside instance; nested user data on every element kind); 12 edit tails x {copy, original}",
  "C08": "B: F_hier (all wiring partitions of the small skeletons, arithmetic slices of the deep ones) x variants incl. clashing names and definitions reshaped after instancing",
  "C09": "B: the same family through uniquify + flatten",
@@ -27,7 +27,7 @@ SPACE = {
  "C16": "B: ~1.5 k netlists of all origins x 3 targets x option sets; sdn.compose and Netlist.compose; nameless netlists",
  "C17": "B: all ordered pairs of names of length <= 2 (<= 3 thorough) over 13 characters; triples; 3/11/12 long siblings sharing 255-300 characters; pre-existing x_sdn_N_; every scope end to end incl. cross-scope",
  "C18": "B: bases B1-B5 (.subckt/.gate/.names/.latch/.conn incl. star and feed-through, 12-input .names, growing port sets) x every statement order x continuation (positions, lone backslash, reversed formals) x comments x model placement; bundled .eblif",
- "C19": "A: S1-S11 with a shadow listener registered before the seed; strict (no redundant add/remove/connect announcements); each notified transition re-run without listeners",
+ "C19": "A: S1-S11 with a shadow listener registered before the seed; strict (no redundant add/remove/connect announcements); each notified transition re-run without listeners; every single-hook and every all-but-one listener against the all-hooks listener and no listener (seed + first events of every scenario), registration residue",
  "C20": "B: 6 base netlists: 3 kinds of faithful copy + every single mutation (directions, widths, array-ness, moved / dropped / added connections, re-points incl. same name in another library, each property, added/dropped elements)",
 }
 rows = []
